@@ -2,11 +2,11 @@ import Bifrost.Model.SigClient
 import Bifrost.Lemmas.SigClient
 /-!
 C23 — Signaling makes progress once both peers are stably attached.
-PARTIAL (stated as such in MANIFEST): liveness under fairness is decomposed into one-step
-progress lemmas for the client (below) and the server (wake invariant C22, listener_step_enabled
-C24); the composed "eventually" theorem over client ∘ relay ∘ client is not proved. The F11
-regression (a send in flight across a re-open) is covered by `reopen_keeps_send` and
-`no_orphan_out`.
+One-step progress lemmas for the client tracker (below); the server side is the wake invariant
+(C22) and listener_step_enabled (C24). The composed "eventually" theorem over
+client ∘ relay ∘ client under fairness is `Props/C23Live.lean` (`signaling_progress`). The F11
+regression (a send in flight across a re-open) is covered here by `reopen_keeps_send` and
+`no_orphan_out`, and in the liveness theorem by the quantification over arbitrary prefixes.
 -/
 namespace Bifrost.Props.C23
 open Bifrost Bifrost.SigC
